@@ -172,6 +172,8 @@ __CPROVER_ensures(C07_RESTART_POST(drec, data_len, consumed_back))
 void *contract_c07_memcpy(void *dst, const void *src, size_t n)
 __CPROVER_requires(__CPROVER_r_ok(src, n) && n <= LZMA_PROPS_SIZE + 8)
 __CPROVER_requires((unsigned char *) dst >= g_c07_hdr && (unsigned char *) dst + n <= g_c07_hdr + (LZMA_PROPS_SIZE + 8))
+/* fidelity for any chunking of the 13-byte LZMA header: a later fragment is appended BEHIND the bytes collected by earlier calls */
+__CPROVER_requires((unsigned char *) dst == g_c07_hdr + *g_c07_hlp)
 __CPROVER_assigns(__CPROVER_object_upto(g_c07_hdr, LZMA_PROPS_SIZE + 8))
 __CPROVER_ensures(__CPROVER_return_value == dst)
 ;
@@ -203,6 +205,7 @@ __CPROVER_requires(GZ(drec1)->restart >= C07_RESTART_MIN)
 __CPROVER_requires(drec1->next == NULL && drec1->callback == c07_sink)
 /* ghost snapshot the sink's call-site obligations refer to */
 __CPROVER_requires(__CPROVER_pointer_equals(g_c07_hdr, GZ(drec1)->header))
+__CPROVER_requires(__CPROVER_pointer_equals(g_c07_hlp, &GZ(drec1)->header_len))
 __CPROVER_requires(g_c07_buf == GZ(drec1)->buffer && g_c07_in == d->data && g_c07_inlen == d->len && g_c07_tx == (const void *) d->tx && g_c07_last == d->is_last)
 __CPROVER_requires(g_c07_cb == 0 && g_c07_cb_failed == 0 && g_c07_dead == (C07_DEAD_CLAIMED(GZ(drec1), d) ? 1 : 0))
 __CPROVER_assigns(g_c07_cb, g_c07_cb_failed, g_c07_cb_rc, g_c07_cb_ptr, g_c07_cb_len, g_c07_budget,
